@@ -446,3 +446,43 @@ Definition inst_eqb (a b : inst) : bool :=
   list_eqb (fun x y => String.eqb (fst x) (fst y) && node_eqb (snd x) (snd y)) (i_nodes a) (i_nodes b)
   && list_eqb (fun x y => String.eqb (fst x) (fst y) && String.eqb (snd x) (snd y)) (i_prods a) (i_prods b)
   && meta_eqb (i_meta a) (i_meta b).
+
+(* ---------- the REPAIRED reading discipline ---------- *)
+(* A reader limited to the buffer view's byteLength for every payload kind (what jbtf would do with an
+   io.LimitReader / io.SectionReader): the File case of [read_view] becomes the Image case.  Everything else is
+   [decode] verbatim. *)
+Definition read_view_fixed (buf : list N) (off len : N) : jval :=
+  JBytes (firstn (N.to_nat len) (skipn (N.to_nat off) buf)).
+
+Definition decode_field_fixed (buf : list N) (f : sfield) (keep : option jval) : option jval :=
+  match f with
+  | FAbsent => keep
+  | FPlain v => Some v
+  | FView off len => Some (read_view_fixed buf off len)
+  end.
+
+Definition decode_par_fixed (buf : list N) (r0 : prec) (d : sdata) : prec :=
+  mkprec (s_name d)
+         (match s_desc d with Some x => x | None => pr_desc r0 end)
+         (decode_field_fixed buf (s_def d) (pr_def r0))
+         (decode_field_fixed buf (s_cur d) (pr_val r0))
+         (s_cli d).
+
+Definition decode_node_fixed (T : table) (tl : list (id * nat)) (buf : list N) (sn : snode) : option (id * node) :=
+  do t <- nth_error T (s_ty sn);
+  do ins <- fold_opt (fun ins d => if String.eqb (d_port d) "Out"
+                                   then set_input T tl (t_ports t) ins (d_name d) (d_src d) else None)
+                     (s_deps sn) (n_in (fresh t (s_ty sn)));
+  do par <- match s_data sn, t_def t with
+            | Some d, Some r0 => Some (Some (decode_par_fixed buf r0 d))
+            | None, None => Some None
+            | _, _ => None
+            end;
+  Some (s_id sn, mknode (s_ty sn) ins par).
+
+Definition decode_fixed (T : table) (sc : schema) : option inst :=
+  let tl := map (fun sn => (s_id sn, s_ty sn)) (s_nodes sc) in
+  do nodes <- map_opt (decode_node_fixed T tl (s_buf sc)) (s_nodes sc);
+  if forallb (fun e => let '(_, i, p) := e in String.eqb p "Out" && is_artifact T tl i) (s_prods sc)
+  then Some (mkinst nodes (map (fun e => let '(n, i, _) := e in (n, i)) (s_prods sc)) (s_meta sc))
+  else None.
